@@ -3,7 +3,7 @@
 //! harness: each directed link is a FIFO of the wire frames node A's behaviour queued for B,
 //! delivered as B's inbound handler events through the real codec).
 
-use crate::meshsys::{make_config_v, score_params};
+use crate::meshsys::{config_builder, score_params};
 use crate::node::{parse_frame, GsNode, Kind};
 use kit::ids::peer;
 use libp2p_gossipsub as gs;
@@ -13,12 +13,35 @@ use std::collections::{BTreeMap, BTreeSet, VecDeque};
 
 pub const META: Meta = Meta {
     level: "model_checking",
-    rule: "configurations = topology (all connected graphs on 3 nodes; path/cycle/star/complete on 4) x publisher(s) of 1 or 2 messages (every node / ordered pair of nodes) x flood_publish on/off x {no application validation; validate_messages with scoring off; validate_messages with scoring on}, plus (without validation) the topology's first edge turned into an explicit-peer link or a floodsub link; per configuration a deterministic set-up (connect, subscribe, exchange subscriptions and GRAFTs to quiescence, one heartbeat per node; every link must then be a mesh link) followed by every execution with <= bound deviations from the default schedule (default: deliver the globally oldest in-flight frame, then let applications report Accept for pending messages, publish the 2nd message when the 1st has settled, no heartbeat; deviation: deliver the head of another link first, report a verdict or publish earlier, run a heartbeat at some node). Non-trivial = executions with >= 1 deviation, distinct by (configuration, choice sequence).",
-    explanation: "E1 stateless deviation-bounded DFS; every execution runs 3-4 real Behaviours with owned entropy. Oracle at quiescence: every subscribed node except the publisher emitted exactly one Event::Message per message, the publisher none; during the run no frame carrying message m is queued by node n towards a peer from which n has already received m (any of them, duplicates included, also when forwarding is deferred until the application's Accept), nor towards m's source.",
+    rule: "configurations = topology (all connected graphs on 3 nodes; path/cycle/star/complete on 4) x publisher(s) of 1 or 2 messages (every node / ordered pair of nodes) x flood_publish on/off x {no application validation; validate_messages with scoring off; validate_messages with scoring on}, plus (without validation) the topology's first edge turned into an explicit-peer link or a floodsub link, plus (single publish) {XOR payload transform, identity} x {content-addressed message ids, default ids} x {anonymous, author} in 4 combinations; per configuration a deterministic set-up (connect, subscribe, exchange subscriptions and GRAFTs to quiescence, one heartbeat per node; every link must then be a mesh link) followed by every execution with <= bound deviations from the default schedule (default: deliver the globally oldest in-flight frame, then let applications report Accept for pending messages, publish the 2nd message when the 1st has settled, no heartbeat; deviation: deliver the head of another link first, report a verdict or publish earlier, run a heartbeat at some node). Non-trivial = executions with >= 1 deviation, distinct by (configuration, choice sequence).",
+    explanation: "E1 stateless deviation-bounded DFS; every execution runs 3-4 real Behaviours with owned entropy. Oracle at quiescence: every subscribed node except the publisher emitted exactly one Event::Message per message, the publisher none; during the run no frame carrying message m is queued by node n towards a peer from which n has already received m (any of them, duplicates included, also when forwarding is deferred until the application's Accept), nor towards m's source (when the message names one); the publisher never queues its own publication a second time and never sends IWANT for it.",
     assumptions: &["<= 4 nodes (not a dozen): larger networks are out of exhaustive reach and are not claimed", "per-link FIFO (streams), reordering only across links", "no topology or subscription change during the explored phase; virtual time does not advance (well within the duplicate-cache lifetime)", "messages are unsigned with author + random seqno (ValidationMode::Permissive)"],
 };
 
 const T: &str = "T1";
+
+/// A simple non-identity `DataTransform` (what a compressing application installs): every payload
+/// byte is XOR-ed with 0x5A on the way out and on the way in; identity when `on` is false.
+#[derive(Clone, Default)]
+pub struct XorT {
+    on: bool,
+}
+fn xor(on: bool, mut d: Vec<u8>) -> Vec<u8> {
+    if on {
+        for b in d.iter_mut() {
+            *b ^= 0x5A;
+        }
+    }
+    d
+}
+impl gs::DataTransform for XorT {
+    fn inbound_transform(&self, raw: gs::RawMessage) -> Result<gs::Message, std::io::Error> {
+        Ok(gs::Message { source: raw.source, data: xor(self.on, raw.data), sequence_number: raw.sequence_number, topic: raw.topic })
+    }
+    fn outbound_transform(&self, _topic: &gs::TopicHash, data: Vec<u8>) -> Result<Vec<u8>, std::io::Error> {
+        Ok(xor(self.on, data))
+    }
+}
 
 use std::sync::atomic::{AtomicU64, Ordering::Relaxed};
 /// vacuity counters (per worker process, folded into the outcome)
@@ -27,6 +50,8 @@ static MSG_FRAMES: AtomicU64 = AtomicU64::new(0);
 static HEARTBEATS: AtomicU64 = AtomicU64::new(0);
 static EARLY_PUBLISH: AtomicU64 = AtomicU64::new(0);
 static VALIDATIONS: AtomicU64 = AtomicU64::new(0);
+/// a frame carrying a message was delivered to the node that published it (echo)
+static ECHO_TO_PUBLISHER: AtomicU64 = AtomicU64::new(0);
 /// a node received a duplicate while its first copy was still awaiting application validation
 static DUP_WHILE_PENDING: AtomicU64 = AtomicU64::new(0);
 
@@ -50,7 +75,12 @@ struct Frame {
 }
 
 struct Net {
-    nodes: Vec<GsNode>,
+    nodes: Vec<GsNode<XorT>>,
+    /// payloads on the wire are XOR-transformed (the harness keys everything by the plain data)
+    xor: bool,
+    /// (publisher, message) whose initial publication has been collected: any later frame of
+    /// the publisher carrying it is a re-forward
+    published: BTreeSet<(usize, Vec<u8>)>,
     nbrs: Vec<Vec<usize>>,
     links: BTreeMap<(usize, usize), VecDeque<Frame>>,
     seq: u64,
@@ -72,12 +102,19 @@ impl Net {
     /// `special` = kind of the topology's first edge: "explicit" (both ends list each other as
     /// explicit/direct peers), "floodsub" (the link negotiated /floodsub/1.0.0: both ends see a
     /// floodsub peer) or anything else for an ordinary gossipsub link
-    fn new(topo: &str, flood: bool, validate: bool, scoring: bool, special: &str) -> Net {
+    #[allow(clippy::too_many_arguments)]
+    fn new(topo: &str, flood: bool, validate: bool, scoring: bool, special: &str, xor_on: bool, content_id: bool, anonymous: bool) -> Net {
         let (n, es) = edges(topo);
         let first = es[0];
         let mut nodes = Vec::new();
         for i in 0..n {
-            let mut beh = gs::Behaviour::new(gs::MessageAuthenticity::Author(peer(i as u8)), make_config_v(4, flood, validate)).expect("behaviour");
+            let mut cb = config_builder(4, flood, validate);
+            if content_id {
+                // content-addressed ids: the id of a message is its (plain) payload
+                cb.message_id_fn(|m: &gs::Message| gs::MessageId::from(m.data.clone()));
+            }
+            let auth = if anonymous { gs::MessageAuthenticity::Anonymous } else { gs::MessageAuthenticity::Author(peer(i as u8)) };
+            let mut beh = gs::Behaviour::<XorT>::new_with_transform(auth, cb.build().expect("valid config"), XorT { on: xor_on }).expect("behaviour");
             if scoring {
                 let (sp, st) = score_params();
                 beh.with_peer_score(sp, st).expect("score params");
@@ -96,7 +133,7 @@ impl Net {
             links.insert((*a, *b), VecDeque::new());
             links.insert((*b, *a), VecDeque::new());
         }
-        let mut net = Net { nodes, nbrs, links, seq: 0, source: BTreeMap::new(), received_from: BTreeMap::new(), delivered: BTreeMap::new(), frames_delivered: 0, violation: None, validate, pending: vec![VecDeque::new(); n] };
+        let mut net = Net { nodes, xor: xor_on, published: BTreeSet::new(), nbrs, links, seq: 0, source: BTreeMap::new(), received_from: BTreeMap::new(), delivered: BTreeMap::new(), frames_delivered: 0, violation: None, validate, pending: vec![VecDeque::new(); n] };
         for (a, b) in &es {
             let kind = if special == "floodsub" && (*a, *b) == first { Kind::Flood } else { Kind::G11 };
             net.nodes[*a].connect(peer(*b as u8), true, kind);
@@ -123,11 +160,24 @@ impl Net {
             for bytes in self.nodes[a].drain_wire(&peer(b as u8)) {
                 if let Some(rpc) = parse_frame(&bytes) {
                     for m in &rpc.msgs {
-                        if self.received_from.get(&(a, m.data.clone())).is_some_and(|s| s.contains(&b)) && self.violation.is_none() {
-                            self.violation = Some(format!("sent-back-to-sender :: node {a} queued message {:?} towards node {b} from which it had received it", String::from_utf8_lossy(&m.data)));
+                        let data = xor(self.xor, m.data.clone());
+                        let name = String::from_utf8_lossy(&data).into_owned();
+                        if self.received_from.get(&(a, data.clone())).is_some_and(|s| s.contains(&b)) && self.violation.is_none() {
+                            self.violation = Some(format!("sent-back-to-sender :: node {a} queued message {name:?} towards node {b} from which it had received it"));
                         }
-                        if self.source.get(&m.data) == Some(&b) && self.violation.is_none() {
-                            self.violation = Some(format!("sent-to-source :: node {a} queued message {:?} towards its source node {b}", String::from_utf8_lossy(&m.data)));
+                        // "never sent to its source" can only be judged by a node that can know
+                        // the source: the message must carry a `from` field (not anonymous)
+                        if m.from.is_some() && self.source.get(&data) == Some(&b) && self.violation.is_none() {
+                            self.violation = Some(format!("sent-to-source :: node {a} queued message {name:?} towards its source node {b}"));
+                        }
+                        if self.published.contains(&(a, data.clone())) && self.violation.is_none() {
+                            self.violation = Some(format!("publisher-forwarded-own-message-again :: node {a} queued its own publication {name:?} a second time (towards node {b})"));
+                        }
+                    }
+                    for id in &rpc.iwant {
+                        // with content-addressed ids the id is the plain payload
+                        if self.source.get(id) == Some(&a) && self.violation.is_none() {
+                            self.violation = Some(format!("iwant-for-own-message :: node {a} asked node {b} for its own publication {:?}", String::from_utf8_lossy(id)));
                         }
                     }
                 }
@@ -152,11 +202,15 @@ impl Net {
         if let Some(rpc) = parse_frame(&f.bytes) {
             for m in &rpc.msgs {
                 MSG_FRAMES.fetch_add(1, Relaxed);
-                let e = self.received_from.entry((b, m.data.clone())).or_default();
-                if !e.is_empty() || self.source.get(&m.data) == Some(&b) {
+                let data = xor(self.xor, m.data.clone());
+                if self.source.get(&data) == Some(&b) {
+                    ECHO_TO_PUBLISHER.fetch_add(1, Relaxed);
+                }
+                let e = self.received_from.entry((b, data.clone())).or_default();
+                if !e.is_empty() || self.source.get(&data) == Some(&b) {
                     // the receiver already has this message: the duplicate cache must absorb it
                     DUP_RECEPTIONS.fetch_add(1, Relaxed);
-                    if self.pending[b].iter().any(|p| p.2 == m.data) {
+                    if self.pending[b].iter().any(|p| p.2 == data) {
                         DUP_WHILE_PENDING.fetch_add(1, Relaxed);
                     }
                 }
@@ -203,6 +257,7 @@ impl Net {
         let r = self.nodes[p].beh.publish(gs::IdentTopic::new(T).hash(), data.to_vec());
         self.nodes[p].pump();
         self.collect(p);
+        self.published.insert((p, data.to_vec()));
         r.map(|_| ()).map_err(|e| format!("{e:?}"))
     }
 }
@@ -224,7 +279,10 @@ fn one(cfg: &Value) -> Result<(), String> {
     let validate = cfg["validate"].as_bool().unwrap_or(false);
     let scoring = cfg["scoring"].as_bool().unwrap_or(false);
     let special = cfg["special"].as_str().unwrap_or("none");
-    let mut net = Net::new(topo, flood, validate, scoring, special);
+    let xor_on = cfg["xor"].as_bool().unwrap_or(false);
+    let content_id = cfg["content_id"].as_bool().unwrap_or(false);
+    let anonymous = cfg["anonymous"].as_bool().unwrap_or(false);
+    let mut net = Net::new(topo, flood, validate, scoring, special, xor_on, content_id, anonymous);
     let first_edge = edges(topo).1[0];
     let n = net.nodes.len();
     // precondition of the property ("delivered to every subscriber" is promised on a mesh that
@@ -373,6 +431,19 @@ fn configs(ctx: &Ctx) -> Vec<Value> {
             }
         }
     }
+    // payload transform x message-id function x authenticity (single publish): with anonymous
+    // messages nothing on the wire names the publisher, so its own message can be echoed back
+    for (x, cid, anon) in [(true, true, true), (false, true, true), (true, true, false), (true, false, false)] {
+        for flood in [false, true] {
+            for (ts, n) in [(&three[..], 3usize), (&four[..], 4)] {
+                for t in ts {
+                    for a in 0..n {
+                        v.push(json!({"topo": t, "flood": flood, "pubs": [a], "validate": false, "scoring": false, "xor": x, "content_id": cid, "anonymous": anon}));
+                    }
+                }
+            }
+        }
+    }
     for (validate, scoring) in [(false, false), (true, false), (true, true)] {
         // quick: the validating modes with one publish only
         let two = !(ctx.quick() && validate);
@@ -458,10 +529,11 @@ pub fn run(ctx: &Ctx) -> Outcome {
         out.count("heartbeats_explored", HEARTBEATS.load(Relaxed));
         out.count("publish_interleaved_with_inflight", EARLY_PUBLISH.load(Relaxed));
         out.count("application_verdicts", VALIDATIONS.load(Relaxed));
+        out.count("own_message_echoed_to_publisher", ECHO_TO_PUBLISHER.load(Relaxed));
         out.count("duplicate_received_while_awaiting_validation", DUP_WHILE_PENDING.load(Relaxed));
         out
     });
-    for g in ["message_frames_delivered", "duplicate_receptions", "heartbeats_explored", "publish_interleaved_with_inflight", "application_verdicts", "duplicate_received_while_awaiting_validation"] {
+    for g in ["message_frames_delivered", "duplicate_receptions", "heartbeats_explored", "publish_interleaved_with_inflight", "application_verdicts", "duplicate_received_while_awaiting_validation", "own_message_echoed_to_publisher"] {
         if out.get(g) == 0 {
             out.machinery(format!("vacuity guard: counter '{g}' is zero"));
         }
